@@ -53,3 +53,16 @@ pub fn arg_str(args: &[String], i: usize) -> Option<String> {
     // text arguments travel as hex of their UTF-8 bytes
     arg_bytes(args, i).and_then(|b| String::from_utf8(b).ok())
 }
+
+/// The three memoised sighash hashes of a transaction (hash_inputs, hash_sequence, hash_outputs) through the hook
+/// `Transaction::verif_hash_cache` (compiled only with --cfg bsv_verif).  When the driver had to be built without the
+/// hook (the hook no longer compiles against a refactored `HashCache`), the view is unavailable and the ops print `?`
+/// in its place; tools/check.py then compares everything else.
+#[cfg(bsv_verif)]
+pub fn cache_view(tx: &bsv::Transaction) -> Option<[Option<Vec<u8>>; 3]> {
+    Some(tx.verif_hash_cache())
+}
+#[cfg(not(bsv_verif))]
+pub fn cache_view(_tx: &bsv::Transaction) -> Option<[Option<Vec<u8>>; 3]> {
+    None
+}
